@@ -1105,11 +1105,14 @@ def main():
             itr = iter(p.RTCMReader(io.BytesIO(data), quitonerror=0))
             n = 0
             try:
-                for _ in itr:
-                    n += 1
-                    if n > len(data) + 5:
-                        em.violation("C04: iteration over a finite stream does not finish", {"stream": data.hex()}, {})
-                        break
+                with vlib.watchdog(20):
+                    for _ in itr:
+                        n += 1
+                        if n > len(data) + 5:
+                            em.violation("C04: iteration over a finite stream does not finish", {"stream": data.hex()}, {})
+                            break
+            except vlib.WatchdogTimeout:
+                em.violation("C04: iteration over a finite stream does not finish (one next() call ran for 20 s)", {"stream": data.hex()}, {})
             except Exception as e:  # noqa
                 em.violation("C04: iterator raised %r in ignore mode" % e, {"stream": data.hex()}, {})
         # finite SOCKET streams, plain and chunked, cut anywhere (also in the middle of a chunk) and then closed by the peer:
